@@ -5,6 +5,7 @@ CONSTANTS DocIds = {"d1"}
  PoolIds = {}
  OtherIds = {}
  Names = {"a","b","c"}
+ IdNames = FALSE
 INVARIANT InvWF
 INVARIANT InvUniqueSib
 INVARIANT InvNamesOK
